@@ -31,6 +31,8 @@ TECHNIQUE += '; _instanceof always constructs'
 LEVEL_TEXT += ' Added clause: a typed rule constructs a new node also when its AST already is an instance of the class.'
 TECHNIQUE += '; history-free dispatch: _find_walker interpreted on checker-made class hierarchies in many lookup orders against a fresh walker'
 LEVEL_TEXT += ' Added clause: the lookup cache never answers for another class.'
+TECHNIQUE += '; generate_model interpreted whole on stand-in grammars with interleaved Derived::Base chains'
+LEVEL_TEXT += ' Added clause: a class keeps the base some rule declared for it, wherever else it is mentioned.'
 LEVEL_NOTE = 'Eager interpretation of generators (a generator call whose values are not consumed contributes nothing, as in Python).'
 EXPLANATION = ('Static analysis of /repo sources, TatSu not imported. The dfs inside Node._cached_children is interpreted by the '
                'whitelisted evaluator; walkers are checked structurally.')
